@@ -352,7 +352,8 @@ def monitors_comm(s, drv, rep):
     if v == "fuel" or hang:
         fails["C01"].append("HANG: the call did not finish within the step bound (%s)" % ("driver" if hang else "kernel fuel"))
     if panic:
-        fails["C01"].append("the library panicked")
+        for k_ in fails:
+            fails[k_].append("the library panicked inside the exchange (no result, input/EOF not delivered)")
     if v in ("deadlock", "fuel") or hang or panic:
         if s["piped"][0] and world.get("input_left") == "0" and world.get("pin_wr") == "true" and v == "deadlock":
             fails["C02"].append("the whole input was written but stdin was never closed: the child waits for end-of-file forever")
